@@ -54,6 +54,17 @@ CHECKS = {
         "Windows limited to one ungapped alignment block; indelpost anchoring clause on generated databases only.",
         "DESIGN.md 5/C08",
     ),
+    "C09": (
+        "exhaustive enumeration over shipped databases + Hypothesis-generated catalogue-stress databases; independent re-grouping of the raw YAML as oracle, hg19-vs-hg38 diff",
+        "An independent reader (yaml.safe_load, own alignment and region arithmetic) computes per database allele its structure signature and "
+        "core/silent variant sets; compared with Gene: reachability by name, one major per allele, alleles share a major iff equal "
+        "(structure, core set), no two identical majors / partials / minors, core = functional, configuration membership, fusion partials "
+        "= parent restricted to retained regions (+ has_coverage), and identity of names, grouping, content, removed table and configuration "
+        "vectors between hg19 and hg38. Exhaustive over the 38 shipped databases, generated for duplicates, name collisions, labels, fusions "
+        "with/without core variants, custom deletions, zero-length regions, opposite strands.",
+        "Variants partially outside the mapped RefSeq part and inconsistently annotated variants are counted but not judged.",
+        "DESIGN.md 5/C09",
+    ),
     "C10": (
         "recorded-stage recomputation on Hypothesis-generated noisy simulated samples (independent argmin/filter/carry-over) + chain invariants",
         "genotype() is run on simulated samples with fractional-copy noise layers (competing structures and major solutions), gap 0-0.3 and "
